@@ -289,6 +289,27 @@ func (e *c09Env) sweep(cs c09Case) []disc {
 					continue
 				}
 				if n == 1 {
+					// completions that name one part number each, from 0 to two past the highest part the
+					// upload holds (with an ETag no part has: they are refused and change nothing)
+					top := 0
+					for _, u := range e.r.M.Uploads {
+						if u.ID == p[0] {
+							for pn := range u.Parts {
+								if pn > top {
+									top = pn
+								}
+							}
+						}
+					}
+					if top > 20 {
+						top = 20
+					}
+					for pn := 0; pn <= top+2; pn++ {
+						x := fmt.Sprintf(`<CompleteMultipartUpload><Part><PartNumber>%d</PartNumber><ETag>"%s"</ETag></Part></CompleteMultipartUpload>`, pn, strings.Repeat("0", 32))
+						if _, d := check(lreq{Method: "POST", Bucket: b, Key: p[2], Query: s3x.Q("uploadId", p[0]), Body: []byte(x), Family: "completeOnePart"}); len(d) > 0 {
+							return d
+						}
+					}
 					// the integer parameters at the edges of their types, on an upload that exists
 					for _, v := range c09EdgeInts {
 						for _, name := range []string{"part-number-marker", "max-parts"} {
